@@ -74,7 +74,11 @@ class UpdateHandler(MessageHandler):
         Stores all NLRIs in the incoming RIB cache.
         """
         update = cast(Update, message)
-        parsed = update.data  # Already parsed by unpack_message
+        # An End-of-RIB marker, and the placeholder returned when UPDATEs are not decoded, are
+        # UPDATE-typed messages which carry no parsed routes
+        parsed = getattr(update, 'data', None)  # Already parsed by unpack_message
+        if parsed is None:
+            return
         self._number += 1
 
         log.debug(lazymsg('update.received number={number}', number=self._number), ctx.peer_id)
@@ -111,7 +115,11 @@ class UpdateHandler(MessageHandler):
         Same logic as sync - no async I/O needed for inbound processing.
         """
         update = cast(Update, message)
-        parsed = update.data  # Already parsed by unpack_message
+        # An End-of-RIB marker, and the placeholder returned when UPDATEs are not decoded, are
+        # UPDATE-typed messages which carry no parsed routes
+        parsed = getattr(update, 'data', None)  # Already parsed by unpack_message
+        if parsed is None:
+            return
         self._number += 1
 
         log.debug(lazymsg('update.received number={number}', number=self._number), ctx.peer_id)
